@@ -60,6 +60,8 @@ struct State {
   change_points: Vec<usize>,
   spurious_budget: usize,
   record: bool,
+  parks: usize,
+  spin_run: usize,
 }
 
 pub struct Sched {
@@ -110,6 +112,18 @@ impl State {
     if el.is_empty() {
       return None;
     }
+    // spinners are deprioritised, not starved: otherwise a thread never exhausts its spin budget
+    // and the register/park paths are reached only when everybody else is blocked
+    let weak: Vec<usize> = self
+      .status
+      .iter()
+      .enumerate()
+      .filter(|(_, s)| **s == Status::Yielding)
+      .map(|(i, _)| i)
+      .collect();
+    if !weak.is_empty() && !el.iter().any(|t| weak.contains(t)) && xorshift(&mut self.rng) % 3 == 0 {
+      el = weak;
+    }
     // occasionally let a timeout fire although others are runnable
     let timeouts: Vec<usize> = self
       .status
@@ -132,10 +146,36 @@ impl State {
         if all_ok { want } else { el[(xorshift(&mut self.rng) % el.len() as u64) as usize] }
       }
       Policy::Pct(..) => {
+        // strict priorities: a spinning top-priority thread keeps running until it registers and
+        // parks (this is what reaches the park paths); a thread that spins for very long is waiting
+        // for somebody else's progress, so demote it (no false livelock)
+        let mut all: Vec<usize> = self
+          .status
+          .iter()
+          .enumerate()
+          .filter(|(_, s)| matches!(**s, Status::Runnable | Status::Yielding))
+          .map(|(i, _)| i)
+          .collect();
+        if all.is_empty() {
+          all = el.clone();
+        }
+        el = all;
+        if let Some(&last) = self.choices.last() {
+          if self.status.get(last) == Some(&Status::Yielding) {
+            self.spin_run += 1;
+            if self.spin_run > 300 {
+              // below everybody: whoever it is waiting for gets to run
+              self.prio[last] = self.prio.iter().min().copied().unwrap_or(1).saturating_sub(1);
+              self.spin_run = 0;
+            }
+          } else {
+            self.spin_run = 0;
+          }
+        }
         if self.change_points.contains(&self.steps) {
           // demote the currently highest-priority eligible thread
           if let Some(&top) = el.iter().max_by_key(|t| self.prio[**t]) {
-            self.prio[top] = xorshift(&mut self.rng) % 1000;
+            self.prio[top] = self.prio.iter().min().copied().unwrap_or(1).saturating_sub(1);
           }
         }
         *el.iter().max_by_key(|t| self.prio[**t]).unwrap()
@@ -155,7 +195,7 @@ impl Sched {
     let mut rng = seed.wrapping_mul(0x9E3779B97F4A7C15) | 1;
     let mut prio = Vec::new();
     for _ in 0..nthreads {
-      prio.push(1000 + xorshift(&mut rng) % 1000);
+      prio.push(1_000_000 + xorshift(&mut rng) % 1000);
     }
     let mut change_points = Vec::new();
     if let Policy::Pct(_, d) = &policy {
@@ -180,6 +220,8 @@ impl Sched {
         change_points,
         spurious_budget: 2,
         record,
+        parks: 0,
+        spin_run: 0,
       }),
       cv: Condvar::new(),
     })
@@ -194,6 +236,7 @@ impl Sched {
     st.steps += 1;
     if st.steps > st.max_steps {
       st.aborted = Some(Outcome::StepLimit);
+      if std::env::var("SCHED_DEBUG").is_ok() { eprintln!("ABORT step-limit"); }
       self.cv.notify_all();
       return Err(());
     }
@@ -211,6 +254,7 @@ impl Sched {
           self.cv.notify_all();
           return Ok(());
         }
+        if std::env::var("SCHED_DEBUG").is_ok() { eprintln!("ABORT deadlock {:?} {:?}", parked, st.status); }
         st.aborted = Some(Outcome::Deadlock(parked));
         self.cv.notify_all();
         Err(())
@@ -242,9 +286,15 @@ impl Sched {
     }
   }
 
+  /// After an abort (deadlock / step limit / panic elsewhere) scenario threads are never resumed
+  /// and never unwound: fibre's waiters link stack frames into shared queues, so unwinding a
+  /// blocked thread would leave dangling nodes behind.  The thread is leaked, parked forever.
   fn abort_panic(&self) {
-    if !std::thread::panicking() {
-      std::panic::resume_unwind(Box::new("sched-abort"));
+    if std::thread::panicking() {
+      return;
+    }
+    loop {
+      std::thread::park();
     }
   }
 }
@@ -295,6 +345,7 @@ impl Runtime for Handle {
       st.token[me] = false;
       return;
     }
+    st.parks += 1;
     st.status[me] = if timeout.is_some() { Status::ParkedTimeout } else { Status::Parked };
     if s.reschedule(me, st).is_err() {
       s.abort_panic();
@@ -340,6 +391,8 @@ pub struct RunResult {
   pub trace: Vec<Rec>,
   pub choices: Vec<usize>,
   pub steps: usize,
+  /// park calls that really blocked (no token available)
+  pub parks: usize,
 }
 
 /// Run `bodies` (one closure per scenario thread) under the scheduler.
@@ -359,6 +412,12 @@ pub fn run(policy: Policy, max_steps: usize, record: bool, bodies: Vec<Box<dyn F
         sched2.cv.notify_all();
         while st.current != Some(tid) && st.aborted.is_none() {
           st = sched2.cv.wait(st).unwrap();
+        }
+        if st.aborted.is_some() {
+          drop(st);
+          loop {
+            std::thread::park();
+          }
         }
       }
       let r = catch_unwind(AssertUnwindSafe(body));
@@ -420,8 +479,19 @@ pub fn run(policy: Policy, max_steps: usize, record: bool, bodies: Vec<Box<dyn F
     st.current = first;
     sched.cv.notify_all();
   }
-  for j in joins {
-    let _ = j.join();
+  {
+    // wait until every thread finished, or the run was aborted (then the threads are leaked)
+    let mut st = sched.st.lock().unwrap();
+    while st.aborted.is_none() && !st.status.iter().all(|s| *s == Status::Finished) {
+      let (g, _) = sched.cv.wait_timeout(st, Duration::from_millis(50)).unwrap();
+      st = g;
+    }
+    if st.aborted.is_none() {
+      drop(st);
+      for j in joins {
+        let _ = j.join();
+      }
+    }
   }
   let mut st = sched.st.lock().unwrap();
   RunResult {
@@ -429,6 +499,7 @@ pub fn run(policy: Policy, max_steps: usize, record: bool, bodies: Vec<Box<dyn F
     trace: std::mem::take(&mut st.trace),
     choices: std::mem::take(&mut st.choices),
     steps: st.steps,
+    parks: st.parks,
   }
 }
 
